@@ -97,7 +97,7 @@ CLAIMED = {
   "hdf5 is opaque (cannot be compiled here): its API is classified reader/writer/neutral by a table in tool/c08.go. Recursive read-locking is treated conservatively. Outside package io the unexported lock cannot be held: such calls are accepted only where statically no goroutine started by module code can exist.",
   "interprocedural lock-state dataflow (must-hold) over go/ssa + call-graph reachability + dominance of guard edges"),
  "C16": ("other",
-  "Decided by normal forms, not by running anything: (R16.3) for the partition, scaling, conversion, mask and concentration kernels the value written to each output on every write site is expanded to a polynomial (and each such output is written on every path through a timestep) over canonical symbols (input k at the loop's time index, parameter k) and compared with the property's identities: the two outputs of the fixed/variable/rating-curve partitions sum identically to the input; scale/delivery-ratio/depth-to-rate/concentration models are exactly the stated monomial with the exact unit factor (mm->m, mg/L->kg/m3); totals equal the sum of their parts; gate/pass-through masks write the input (x factor) exactly on the positive side of their driver test and zero otherwise. (R16.1) every A_TO_B conversion constant equals magnitude(A)/magnitude(B) exactly (rational arithmetic by the type checker) and inverse pairs multiply to 1; (R16.2) constants are used as factors only. The larger generation models (bank erosion, USLE, gully, particulate nutrients) and the demand partition's min/max clauses are NOT covered by identities.",
+  "Decided by normal forms, not by running anything: (R16.3) for the partition, scaling, conversion, mask and concentration kernels the value written to each output on every write site is expanded to a polynomial (and each such output is written on every path through a timestep) over canonical symbols (input k at the loop's time index, parameter k) and compared with the property's identities: the two outputs of the fixed/variable/rating-curve partitions sum identically to the input; scale/delivery-ratio/depth-to-rate/concentration models are exactly the stated monomial with the exact unit factor (mm->m, mg/L->kg/m3); totals equal the sum of their parts; gate/pass-through masks write the input (x factor) exactly on the positive side of their driver test and zero otherwise. (R16.1) every A_TO_B conversion constant equals magnitude(A)/magnitude(B) exactly (rational arithmetic by the type checker) and inverse pairs multiply to 1; (R16.2) constants are used as factors only. (R16.4) for USLE fine sediment, bank erosion, particulate nutrient generation, the two gully models and the demand partition, 15 relations written with OW-SPEC names (totals = sum of parts, delivered load = generated load x delivery ratio, generated fine : (fine + coarse) = the model's fine fraction, dry-weather loads linear with the mg/L->kg/m3 factor, extraction + outflow = input) hold identically on every feasible CFG path through a timestep, with phis resolved by the path and scalar helpers inlined where needed. NOT decided: zero driver => zero load and non-negativity as such, the gully fine/coarse split (computed behind a function value), clamps that bind.",
   "DESIGN.md section 2, C16",
   "Identity table (model -> expected polynomial) is part of the checker and restates the property; opaque calls (Piecewise, Min/Max) are symbols. SI table of unit words in tool/c16.go.",
   "symbolic polynomial normal forms over go/ssa values + go/types constant evaluation"),
